@@ -179,12 +179,12 @@ type window struct {
 func windows(tier string) []window {
 	if tier == "thorough" {
 		return []window{
-			{"year-change", PDate{1999, 12, 12}, 40}, {"leap-feb", PDate{2000, 2, 10}, 40}, {"nonleap-feb", PDate{1900, 2, 10}, 40},
+			{"year-change", PDate{1999, 12, 12}, 40}, {"leap-year-end", PDate{2000, 12, 12}, 40}, {"leap-feb", PDate{2000, 2, 10}, 40}, {"nonleap-feb", PDate{1900, 2, 10}, 40},
 			{"start-of-time", PDate{1, 1, 1}, 40}, {"end-of-time", PDate{9999, 11, 22}, 40}, {"mid-year", PDate{1943, 8, 20}, 40},
 		}
 	}
 	return []window{
-		{"year-change", PDate{1999, 12, 20}, 24}, {"leap-feb", PDate{2000, 2, 18}, 22}, {"nonleap-feb", PDate{1900, 2, 20}, 18},
+		{"year-change", PDate{1999, 12, 20}, 24}, {"leap-year-end", PDate{2000, 12, 24}, 16}, {"leap-feb", PDate{2000, 2, 18}, 22}, {"nonleap-feb", PDate{1900, 2, 20}, 18},
 		{"start-of-time", PDate{1, 1, 1}, 16}, {"end-of-time", PDate{9999, 12, 16}, 16},
 	}
 }
